@@ -3,8 +3,8 @@ package main
 import (
 	"fmt"
 	"go/ast"
-	"go/printer"
 	"go/constant"
+	"go/printer"
 	"go/token"
 	"go/types"
 	"sort"
